@@ -39,6 +39,7 @@ THEOREMS = [
     "Crit.gc_overdelete_rejected",
     "Crit.gc_evaluate_total",
     "Crit.gc_log_form",
+    "Crit.gc_no_species_rejected",
     "Crit.gc_product_form_overflows",
     "Crit.gc_raw_overflows",
     "Crit.setter_next_trial_temperature",
@@ -117,11 +118,13 @@ def env():
                 self.results = {"energy": self.energy}
 
         def exchange_atoms(sp):
+            if sp == "none":
+                return Atoms()      # GrandCanonical's default: no exchange species configured
             return Atoms(sp) if sp in ("Ar", "He", "Xe") else molecule(sp)
 
         _ENV.update(np=np, Atoms=Atoms, Calc=ConstantEnergy, kB=kB, h=_hplanck, Nav=_Nav, e=_e,
                     contexts=contexts, criteria=criteria, exchange_atoms=exchange_atoms,
-                    masses={sp: float(exchange_atoms(sp).get_masses().sum()) for sp in SPECIES})
+                    masses={sp: float(exchange_atoms(sp).get_masses().sum()) for sp in [*SPECIES, "none"]})
     return _ENV
 
 
@@ -262,6 +265,9 @@ def textbook(case, over=None):
     dE = m["E"] - c["E0"]
     N, d = c["N"], c["delta"]
     if N + d < 0:
+        return -math.inf, 0.0
+    if m["mass"] <= 0:
+        # no exchange species configured (the driver's default): there is no thermal wavelength, hence no ratio to accept with
         return -math.inf, 0.0
     lw = log_wavelength(m["mass"], c["T"])
     lv = math.log(c["Vacc"])
@@ -425,7 +431,7 @@ def gen_case(rng, kind):
     if kind == "gc":
         c["N"] = rng.choice([0, 1, 2, 3, 5, 10, 50, 100, 500]) if rng.random() < 0.7 else rng.randint(0, 500)
         c["delta"] = rng.choice([1, 1, 1, -1, -1, -1, 2, -2])
-        c["species"] = rng.choice(SPECIES)
+        c["species"] = rng.choice(SPECIES) if rng.random() < 0.95 else "none"
         c["mu"] = 0.0 if rng.random() < 0.1 else float(rng.choice([1, -1]) * logu(rng, -3, 1.3))
         c["Vacc"] = float(logu(rng, 0, 6))
     if rng.random() < (0.12 if kind == "gc" else 0.04):
@@ -655,7 +661,12 @@ class Setters(common.Suite):
             mc = Isotension(atoms, temperature=case["T"], pressure=case["P"], default_cell_move=CellMove(IsotropicDeformation(0.05)))
             crit = mc.moves["default_cell_move"].criteria
         elif kind == "nst":
-            mc = Isotension(atoms, temperature=case["T"], pressure=case["P"], external_stress=np.array(case["S"]).reshape(3, 3),
+            S = np.array(case["S"]).reshape(3, 3)
+            if np.array_equal(S, S.T) and int(round(abs(case["E"]) * 1e6)) % 3 == 0:
+                # a symmetric stress given in Voigt order (xx, yy, zz, yz, xz, xy), the documented (6,) shape — what
+                # `atoms.get_stress()` returns
+                S = np.array([S[0, 0], S[1, 1], S[2, 2], S[1, 2], S[0, 2], S[0, 1]])
+            mc = Isotension(atoms, temperature=case["T"], pressure=case["P"], external_stress=S,
                             default_cell_move=CellMove(IsotropicDeformation(0.05)))
             crit = mc.moves["default_cell_move"].criteria
         else:
@@ -673,11 +684,16 @@ class Setters(common.Suite):
         (p1, k1), (p2, k2) = self.plans(case)
         obs = {"class": type(crit).__name__, "before": observe(crit, mc.context, rng, [u for u, _ in p1])}
         attr, field, new = case["set"]
-        setattr(mc, attr, np.array(new).reshape(3, 3) if field == "S" else new)
+        newv = np.array(new).reshape(3, 3) if field == "S" else new
+        if field == "S" and np.array_equal(newv, newv.T) and int(round(abs(case["E"]) * 1e6)) % 2 == 0:
+            setattr(mc, attr, np.array([newv[0, 0], newv[1, 1], newv[2, 2], newv[1, 2], newv[0, 2], newv[0, 1]]))
+        else:
+            setattr(mc, attr, newv)
         got = getattr(mc, attr)
-        obs["readback"] = bool(np.all(np.asarray(got) == np.asarray(new).reshape(np.shape(got))))
+        same = lambda x: bool(np.shape(x) == np.shape(newv) and np.all(np.asarray(x) == np.asarray(newv)))  # noqa: E731
+        obs["readback"] = same(got)
         held = getattr(mc.context, attr)
-        obs["forwarded"] = bool(np.all(np.asarray(held) == np.asarray(new).reshape(np.shape(held))))
+        obs["forwarded"] = same(held)
         obs["after"] = observe(crit, mc.context, rng, [u for u, _ in p2])
         obs["branch"] = f"{kind}.{attr}:{k1}->{k2}"
         # ... and keeps applying: a few real trials later (accepted and rejected ones: save_state / revert_state / reset have
